@@ -720,6 +720,9 @@ def plan(tier, seed, rng):
             units.append(Unit("C09", cfg, cases, ["props/c09.h"], max_success=ms, prelude=prelude))
         for prelude, cases in gapblocks:
             units.append(Unit("C09", cfg, cases, ["props/c09.h"], max_success=2, prelude=prelude))
+    if tier == "thorough":
+        from vf.core import thin_units
+        units = thin_units(units, seed, 0.5, 0.2)
     return units
 
 
